@@ -407,29 +407,40 @@ def split_out(text):
     return res
 
 
-def run_stream(exe_cmd, cases, tmp, tag, env=None, timeout=600):
+HANG = {"seen": 0}      # timeouts met in this run: after the first, every stream gets a short leash (a hang is one finding, not 200)
+
+
+def run_stream(exe_cmd, cases, tmp, tag, env=None, timeout=None):
     """Run cases through a line-protocol executable.  A crash is attributed to the case that was
     running; the remaining cases are run in a fresh process.  Returns (outputs, crashes)
-    where outputs[i] = list of lines, crashes[i] = stderr excerpt."""
+    where outputs[i] = list of lines, crashes[i] = stderr excerpt.
+    A process that does not finish within the time limit is a crash (`TIMEOUT`) of the case it was in.  The limit is
+    generous (VERIF_TIMEOUT, default 900 s per stream) until a first timeout has been seen in this run; afterwards
+    streams get 60 s, and a stream that times out twice is abandoned (its remaining cases are left unjudged)."""
     outputs, crashes = {}, {}
     start = 0
     e = dict(os.environ)
     if env:
         e.update(env)
     rounds = 0
+    mine = 0
+    abandoned = False
     while start < len(cases):
         rounds += 1
         inp = os.path.join(tmp, "%s-%d.in" % (tag, rounds))
         write_cases(inp, cases[start:], base=start)
+        tmo = timeout or (int(os.environ.get("VERIF_TIMEOUT", "900")) if HANG["seen"] == 0 else 60)
         with open(inp) as fin:
             try:
                 r = subprocess.run(exe_cmd, stdin=fin, stdout=subprocess.PIPE, stderr=subprocess.PIPE,
-                                   text=True, env=e, timeout=timeout, errors="replace")
+                                   text=True, env=e, timeout=tmo, errors="replace")
                 rc, so, se = r.returncode, r.stdout, r.stderr
             except subprocess.TimeoutExpired as ex:
                 rc = -999
                 so = ex.stdout.decode(errors="replace") if isinstance(ex.stdout, bytes) else (ex.stdout or "")
-                se = "TIMEOUT"
+                se = "TIMEOUT after %d s (the process did not finish: hang or endless loop)" % tmo
+                HANG["seen"] += 1
+                mine += 1
         os.unlink(inp)
         got = split_out(so)
         outputs.update(got)
@@ -438,15 +449,21 @@ def run_stream(exe_cmd, cases, tmp, tag, env=None, timeout=600):
         last = max(got.keys()) if got else start
         if "LeakSanitizer" in se and last == len(cases) - 1 and len(got.get(last, [])) == len(cases[last]):
             # the process ran to its end and the leak report came at exit: find the case that leaks by bisection
-            leaker = _bisect_leak(exe_cmd, cases, start, len(cases), tmp, tag, e, timeout)
+            leaker = _bisect_leak(exe_cmd, cases, start, len(cases), tmp, tag, e, tmo)
             crashes[leaker] = "exit=%s %s" % (rc, crash_excerpt(se))
             break
         crashes[last] = "exit=%s %s" % (rc, crash_excerpt(se))
         start = last + 1
+        if mine >= 2:
+            abandoned = True
+            break
         if rounds > 200:
             break
     for i in range(len(cases)):
-        outputs.setdefault(i, [])
+        if abandoned and i >= start:
+            outputs[i] = None       # not run: no verdict for this case
+        else:
+            outputs.setdefault(i, [])
     return outputs, crashes
 
 
@@ -573,7 +590,7 @@ def run_cases(ctx, comp, exe, cases, count=True):
             # the monitor (executable Spec) reads every op followed by what the implementation answered
             mcases = []
             for i, case in enumerate(sh):
-                outl = io.get(i, [])
+                outl = io.get(i, []) or []
                 lines = []
                 for j, op in enumerate(case):
                     if j < len(outl):
@@ -591,6 +608,9 @@ def run_cases(ctx, comp, exe, cases, count=True):
     for k, (io, ic, mo, mc, vo) in enumerate(results):
         sh = shards[k]
         for i, case in enumerate(sh):
+            if io.get(i, []) is None or mo.get(i, []) is None:
+                ctx.cov["unjudged_after_hang"] = ctx.cov.get("unjudged_after_hang", 0) + 1
+                continue
             if count:
                 ctx.cov["evaluations"] += 1
                 key = hashlib.sha1("\n".join(case).encode()).digest()
@@ -665,6 +685,8 @@ def shrink(ctx, comp, exe, fail, max_rounds=200):
     best = fail
     n = 2
     rounds = 0
+    if fail.get("crash") and "TIMEOUT" in fail["crash"]:
+        max_rounds = 8          # every attempt on a hanging case costs a whole time limit
     while len(case) >= 2 and rounds < max_rounds:
         rounds += 1
         chunk = max(1, len(case) // n)
